@@ -50,6 +50,10 @@ func (r *Reader) ReadEntry() (*Entry, error) {
 				}
 				return nil, io.EOF
 			}
+			// The entry that was being assembled cannot be completed any more.
+			// Forget its fragments: a caller that reads on behind the damage
+			// must not get them glued to the fragments of a later entry
+			r.fragments = r.fragments[:0]
 			return nil, err
 		}
 
@@ -65,7 +69,8 @@ func (r *Reader) ReadEntry() (*Entry, error) {
 			if len(record.data) == 0 {
 				return nil, fmt.Errorf("%w: empty first fragment", ErrCorruptRecord)
 			}
-			r.fragments = append(r.fragments, record.data)
+			// An entry that is still being assembled here has lost its tail
+			r.fragments = append(r.fragments[:0], record.data)
 			r.currType = record.data[0] // Save the operation type
 
 		case RecordTypeMiddle:
